@@ -11,6 +11,7 @@
 //                   = HMAC-SHA256(secret of client #key, latest / previous challenge the client received on connection d)
 //        mal <c> | emp <c>                not-JSON payload | empty payload
 //        ban <ip> | unban <ip> | bl <ip> | unbl <ip> | refill <ip>
+//        banp <ip> | bans <ip>            permanent ban | temporary ban that has lapsed before the next event
 //        blr <g> | unblr <g>               blacklist / remove the CIDR range g (covers addresses 2g and 2g+1)
 //        restart                          a new IPManager over the same storage replaces the live one
 //        exp <k> | del <k> | strip <k>    credential expiry | config deleted | config without encrypted key
@@ -64,7 +65,7 @@ import (
 type fconn struct {
 	mu   sync.Mutex
 	buf  bytes.Buffer
-	addr *net.TCPAddr
+	addr net.Addr
 }
 
 func (c *fconn) Read(p []byte) (int, error) { return 0, io.EOF }
@@ -88,6 +89,11 @@ func (c *fconn) SetReadDeadline(t time.Time) error  { return nil }
 func (c *fconn) SetWriteDeadline(t time.Time) error { return nil }
 
 // address i lies in range i/2: addresses 2g and 2g+1 are 10.7.g.1 and 10.7.g.2, range g is 10.7.g.0/24
+type strAddr string
+
+func (a strAddr) Network() string { return "verif" }
+func (a strAddr) String() string  { return string(a) }
+
 func ipStr(i int) string    { return fmt.Sprintf("10.7.%d.%d", i/2, i%2+1) }
 func rangeStr(g int) string { return fmt.Sprintf("10.7.%d.0/24", g) }
 
@@ -107,6 +113,7 @@ type stack struct {
 	skm     *security.SecretKeyManager
 	stor    storage.Storage
 	skmAlt  *security.SecretKeyManager // another master key: what it seals the server cannot open
+	skmIss  *security.SecretKeyManager // the instance the anonymous-credential service seals new secrets with (same master key)
 	bfp     *security.BruteForceProtector
 	ipm     *security.IPManager
 	rl      *security.RateLimiter
@@ -151,7 +158,7 @@ func (st *stack) setSecret(k int, state byte) error {
 	return st.cfg.SaveConfig(cfg)
 }
 
-func newStack(ips []int, nc int, secs string, burst int) (*stack, error) {
+func newStack(ips []int, kinds string, nc int, secs string, burst int) (*stack, error) {
 	ctx, cancel := context.WithCancel(context.Background())
 	st := &stack{cancel: cancel, ctx: ctx, ips: ips}
 	stor := storage.NewMemoryStorage(ctx)
@@ -167,7 +174,10 @@ func newStack(ips []int, nc int, secs string, burst int) (*stack, error) {
 	if st.skmAlt, err = security.NewSecretKeyManager(&security.SecretKeyConfig{MasterKey: otherMasterKey}); err != nil {
 		return nil, err
 	}
-	st.cc.SetSecretKeyManager(skm)
+	if st.skmIss, err = security.NewSecretKeyManager(&security.SecretKeyConfig{MasterKey: masterKey}); err != nil {
+		return nil, err
+	}
+	st.cc.SetSecretKeyManager(st.skmIss)
 	st.sm = session.NewSessionManager(idgen.NewIDManager(stor, ctx), ctx)
 	st.bfp = security.NewBruteForceProtector(nil, ctx)
 	st.ipm = security.NewIPManager(stor, ctx)
@@ -180,7 +190,18 @@ func newStack(ips []int, nc int, secs string, burst int) (*stack, error) {
 		if ip+1 > st.nIPs {
 			st.nIPs = ip + 1
 		}
-		fc := &fconn{addr: &net.TCPAddr{IP: net.ParseIP(ipStr(ip)), Port: 40000 + i}}
+		var addr net.Addr = &net.TCPAddr{IP: net.ParseIP(ipStr(ip)), Port: 40000 + i}
+		if i < len(kinds) {
+			switch kinds[i] {
+			case 'u':
+				addr = &net.UDPAddr{IP: net.ParseIP(ipStr(ip)), Port: 40000 + i}
+			case 's': // a transport adapter's own address type: only String() "host:port" is available
+				addr = strAddr(fmt.Sprintf("%s:%d", ipStr(ip), 40000+i))
+			case 'm': // the same IPv4 address as a 16-byte IPv4-mapped IPv6 address
+				addr = &net.TCPAddr{IP: net.ParseIP(ipStr(ip)).To16(), Port: 40000 + i}
+			}
+		}
+		fc := &fconn{addr: addr}
 		conn, err := st.sm.CreateConnection(fc, fc)
 		if err != nil {
 			return nil, err
@@ -255,7 +276,7 @@ func hmacHex(secret, challenge string) string {
 
 func tyString(ty string) string {
 	switch ty {
-	case "c", "a":
+	case "c", "a", "b":
 		return "control"
 	case "t":
 		return "tunnel"
@@ -272,6 +293,23 @@ func (st *stack) respTerm(r string) (string, error) {
 		return "", nil
 	case r == "j":
 		return "6a756e6b2d726573706f6e7365", nil
+	case len(r) >= 3 && r[0] == 'e' && (r[1] == 'L' || r[1] == 'P'):
+		// not an HMAC at all: the challenge string itself, echoed back
+		d, err := strconv.Atoi(r[2:])
+		if err != nil || d < 0 {
+			return "", fmt.Errorf("bad response term %q", r)
+		}
+		ch := -1
+		if d < len(st.lastCh) {
+			ch = st.lastCh[d]
+			if r[1] == 'P' {
+				ch = st.prevCh[d]
+			}
+		}
+		if ch < 0 {
+			return "echo-of-nothing", nil
+		}
+		return st.chals[ch], nil
 	case strings.HasPrefix(r, "h"):
 		parts := strings.SplitN(r[1:], ".", 2)
 		if len(parts) != 2 || len(parts[1]) < 2 {
@@ -446,8 +484,13 @@ func (st *stack) observe() string {
 }
 
 func (st *stack) clientID(ref string) (int64, string, error) {
-	if ref == "z" {
+	switch ref {
+	case "z":
 		return 0, "x", nil
+	case "y": // id 0 with a token that only looks like a first-connection token
+		return 0, "anonymous", nil
+	case "m": // a negative id
+		return -1, "", nil
 	}
 	k, err := strconv.Atoi(ref)
 	if err != nil || k < 0 {
@@ -478,6 +521,8 @@ func (st *stack) step(ev []string) (string, error) {
 		tok := "new-client"
 		if ev[2] == "a" {
 			tok = "anonymous:x"
+		} else if ev[2] == "b" {
+			tok = "anonymous:"
 		}
 		req := packet.HandshakeRequest{ClientID: 0, Token: tok, Version: "3", Protocol: "tcp", ConnectionType: tyString(ev[2])}
 		b, _ := json.Marshal(req)
@@ -495,6 +540,9 @@ func (st *stack) step(ev []string) (string, error) {
 		if err != nil {
 			return "", err
 		}
+		if ev[2] == "x" && id != 0 {
+			tok = "new-client" // a first-connection token together with a client id is not a first connection
+		}
 		req := packet.HandshakeRequest{ClientID: id, Token: tok, Version: "3", Protocol: "tcp", ConnectionType: tyString(ev[2]), ChallengeResponse: resp}
 		b, _ := json.Marshal(req)
 		return st.deliver(c, b, false), nil
@@ -510,6 +558,36 @@ func (st *stack) step(ev []string) (string, error) {
 			return "", err
 		}
 		return st.deliver(c, nil, false), nil
+	case "wl", "unwl":
+		i, err := argn(1)
+		if err != nil || i < 0 {
+			return "", fmt.Errorf("bad event %v", ev)
+		}
+		if ev[0] == "wl" {
+			return "-", st.ipm.AddToWhitelist(ipStr(i), "verif", "verif")
+		}
+		st.ipm.RemoveFromWhitelist(ipStr(i))
+		return "-", nil
+	case "issue":
+		if len(ev) != 2 || (ev[1] != "fail" && ev[1] != "ok") {
+			return "", fmt.Errorf("bad event %v", ev)
+		}
+		st.skmIss.VerifSetBroken(ev[1] == "fail", bytes.Repeat([]byte{0x5a}, 32))
+		return "-", nil
+	case "unexp":
+		k, err := argn(1)
+		if err != nil || k < 0 {
+			return "", fmt.Errorf("bad event %v", ev)
+		}
+		if k >= len(st.table) {
+			return "-", nil
+		}
+		cfg, err := st.cfg.GetConfig(st.table[k].id)
+		if err != nil || cfg == nil {
+			return "-", nil
+		}
+		cfg.ExpiresAt = nil
+		return "-", st.cfg.SaveConfig(cfg)
 	case "restart":
 		// the process restarts / another instance takes over: a new IPManager loads the lists from the same storage
 		st.ipm = security.NewIPManager(st.stor, st.ctx)
@@ -524,6 +602,19 @@ func (st *stack) step(ev []string) (string, error) {
 			return "-", st.ipm.AddToBlacklist(rangeStr(g), time.Hour, "verif", "verif")
 		}
 		st.ipm.RemoveFromBlacklist(rangeStr(g))
+		return "-", nil
+	case "banp", "bans":
+		i, err := argn(1)
+		if err != nil || i < 0 {
+			return "", fmt.Errorf("bad event %v", ev)
+		}
+		if ev[0] == "banp" {
+			st.bfp.BanIP(ipStr(i), 0, "verif-permanent")
+		} else {
+			// a temporary ban whose duration has run out by the time anybody looks again
+			st.bfp.BanIP(ipStr(i), time.Nanosecond, "verif-short")
+			time.Sleep(20 * time.Microsecond)
+		}
 		return "-", nil
 	case "ban", "unban", "bl", "unbl", "refill":
 		i, err := argn(1)
@@ -583,14 +674,19 @@ func (st *stack) step(ev []string) (string, error) {
 
 // ---- case execution
 
-func parseHeader(toks []string) (ips []int, nc int, secs string, burst int, rest []string, err error) {
+func parseHeader(toks []string) (ips []int, kinds string, nc int, secs string, burst int, rest []string, err error) {
 	if len(toks) < 8 || toks[0] != "seq" || toks[1] != "ips" || toks[3] != "nc" || toks[5] != "rl" || toks[7] != ":" {
-		return nil, 0, "", 0, nil, fmt.Errorf("bad header")
+		return nil, "", 0, "", 0, nil, fmt.Errorf("bad header")
 	}
 	for _, s := range strings.Split(toks[2], ",") {
+		kind := byte('t')
+		if n := len(s); n > 0 && strings.ContainsRune("tusm", rune(s[n-1])) {
+			kind, s = s[n-1], s[:n-1]
+		}
+		kinds += string(kind)
 		v, e := strconv.Atoi(s)
 		if e != nil {
-			return nil, 0, "", 0, nil, e
+			return nil, "", 0, "", 0, nil, e
 		}
 		ips = append(ips, v)
 	}
@@ -600,14 +696,14 @@ func parseHeader(toks []string) (ips []int, nc int, secs string, burst int, rest
 		err = nil
 		for _, ch := range secs {
 			if !strings.ContainsRune("udel", ch) {
-				return nil, 0, "", 0, nil, fmt.Errorf("bad client table %q", secs)
+				return nil, "", 0, "", 0, nil, fmt.Errorf("bad client table %q", secs)
 			}
 		}
 	}
 	if burst, err = strconv.Atoi(toks[6]); err != nil {
 		return
 	}
-	return ips, nc, secs, burst, toks[8:], nil
+	return ips, kinds, nc, secs, burst, toks[8:], nil
 }
 
 func runSeq(caseStr string) string {
@@ -618,12 +714,12 @@ func runSeq(caseStr string) string {
 				res <- "panic " + strings.ReplaceAll(fmt.Sprint(r), " ", "_")
 			}
 		}()
-		ips, nc, secs, burst, rest, err := parseHeader(strings.Fields(caseStr))
+		ips, kinds, nc, secs, burst, rest, err := parseHeader(strings.Fields(caseStr))
 		if err != nil {
 			res <- "bad-case " + strings.ReplaceAll(err.Error(), " ", "_")
 			return
 		}
-		st, err := newStack(ips, nc, secs, burst)
+		st, err := newStack(ips, kinds, nc, secs, burst)
 		if err != nil {
 			res <- "setup-failed " + strings.ReplaceAll(err.Error(), " ", "_")
 			return
@@ -690,7 +786,7 @@ func alphabet() []string {
 			fmt.Sprintf("mal %d", c),
 		)
 	}
-	a = append(a, "ban 0", "unban 0", "bl 0", "exp 0", "blr 0", "restart")
+	a = append(a, "ban 0", "unban 0", "bl 0", "exp 0", "blr 0", "restart", "wl 0", "issue fail", "banp 0", "bans 0")
 	return a
 }
 
@@ -763,7 +859,9 @@ func randResp(r *vc.Rand, c, nconn, ncl int, target string) string {
 	if err != nil {
 		k = r.Intn(ncl + 1)
 	}
-	switch r.Intn(12) {
+	switch r.Intn(13) {
+	case 12:
+		return fmt.Sprintf("e%s%d", vc.Pick(r, []string{"L", "P"}), r.Intn(nconn))
 	case 10, 11:
 		return fmt.Sprintf("h%s.L%d", randKey(r, ncl, k), c)
 	case 0:
@@ -787,6 +885,9 @@ func genRandom(r *vc.Rand, n int, emit func(string, string)) {
 		ips := make([]string, nconn)
 		for j := range ips {
 			ips[j] = strconv.Itoa(r.Intn(nip))
+			if r.Intn(3) == 0 {
+				ips[j] += vc.Pick(r, []string{"u", "s", "m"})
+			}
 		}
 		ncl := 1 + r.Intn(3)
 		nctok := strconv.Itoa(ncl)
@@ -809,7 +910,11 @@ func genRandom(r *vc.Rand, n int, emit func(string, string)) {
 			ty := vc.Pick(r, tys)
 			known := ncl + issued
 			pickClient := func() string {
-				switch r.Intn(12) {
+				switch r.Intn(14) {
+				case 12:
+					return "y"
+				case 13:
+					return "m"
 				case 0:
 					return "z"
 				case 1:
@@ -835,7 +940,7 @@ func genRandom(r *vc.Rand, n int, emit func(string, string)) {
 			case x < 42:
 				t := ty
 				if r.Intn(5) == 0 {
-					t = "a"
+					t = vc.Pick(r, []string{"a", "b"})
 				}
 				evs = append(evs, fmt.Sprintf("fc %d %s", c, t))
 				issued++
@@ -848,7 +953,7 @@ func genRandom(r *vc.Rand, n int, emit func(string, string)) {
 			case x < 79:
 				evs = append(evs, fmt.Sprintf("emp %d", c))
 			case x < 82:
-				evs = append(evs, fmt.Sprintf("%s %d", vc.Pick(r, []string{"ban", "unban", "ban", "unban", "bl", "unbl"}), r.Intn(nip)))
+				evs = append(evs, fmt.Sprintf("%s %d", vc.Pick(r, []string{"ban", "unban", "ban", "unban", "bl", "unbl", "banp", "bans", "bans"}), r.Intn(nip)))
 			case x < 84:
 				switch r.Intn(4) {
 				case 0:
@@ -861,10 +966,14 @@ func genRandom(r *vc.Rand, n int, emit func(string, string)) {
 						evs = append(evs, "restart")
 					}
 				}
-			case x < 86:
+			case x < 85:
 				evs = append(evs, fmt.Sprintf("refill %d", r.Intn(nip)))
+			case x < 86:
+				evs = append(evs, fmt.Sprintf("%s %d", vc.Pick(r, []string{"wl", "wl", "unwl"}), r.Intn(nip)))
+			case x < 87:
+				evs = append(evs, "issue "+vc.Pick(r, []string{"fail", "fail", "ok"}))
 			case x < 89:
-				evs = append(evs, fmt.Sprintf("%s %d", vc.Pick(r, []string{"exp", "exp", "del", "strip"}), r.Intn(known+1)))
+				evs = append(evs, fmt.Sprintf("%s %d", vc.Pick(r, []string{"exp", "exp", "del", "strip", "unexp"}), r.Intn(known+1)))
 			case x < 92:
 				evs = append(evs, fmt.Sprintf("sec %d %s", r.Intn(known+1), vc.Pick(r, []string{"u", "d", "e", "l"})))
 			case x < 96: // a message on a connection the server does not know
